@@ -166,13 +166,16 @@ class Gen:
                 sc['nodes'].append(dict(kind='seq', entry=e.name, cfg=cfg, inst=self.fresh('s'), ins=ins, outs=outs))
             elif r < 0.36:
                 w = rnd.choice([1, 2, 4, 8])
+                wide = rnd.random() < 0.1
+                if wide:
+                    w = rnd.choice([33, 40, 64, 72])       # beyond 32 bits: sized literals, float precision, reset values in module names
                 q = self.fresh('q')
                 sc['locals'].append([q, w])
                 pool.append((q, w))
                 node = dict(kind='reg', inst=self.fresh('r'), d=None, q=q, w=w,
                             e=pick_net(1) if rnd.random() < 0.5 else None,
                             r=pick_net(1) if rnd.random() < 0.4 else None,
-                            rv=rnd.choice([None, 0, 1, (1 << w) - 1, rnd.getrandbits(w)]))
+                            rv=rnd.choice([None, 0, 1, (1 << w) - 1, rnd.getrandbits(w)] + ([-1, (1 << w) + 5, (1 << (w - 1)) + 1] if wide else [])))
                 if node['r'] is None and rnd.random() < 0.5:
                     node['rv'] = None
                 pending_regs.append(node)
